@@ -57,6 +57,18 @@ def normal_forms(n=3):
 
 # --------------------------------------------------------------------------- objects
 
+OTHERS = [0]          # children of the *other* kind a Section under test also carries (set per case)
+
+
+def add_other(kind, sec, i):
+    """A child that does not count for the cardinality kind under test."""
+    import odml
+    if kind == "properties":
+        sec.append(odml.Section(name="o%d" % i, type="t"))
+    elif kind == "sections":
+        sec.append(odml.Property(name="o%d" % i, values=[1]))
+
+
 def make(kind, count, ctor_card="<none>"):
     import odml
     kw = {}
@@ -66,6 +78,8 @@ def make(kind, count, ctor_card="<none>"):
     if kind == "values":
         return odml.Property(name="p", values=list(range(10, 10 + count)), dtype="int", **kw)
     sec = odml.Section(name="s", type="t", **kw)
+    for i in range(OTHERS[0]):
+        add_other(kind, sec, i)
     for i in range(count):
         add_child(kind, sec, i)
     return sec
@@ -161,12 +175,14 @@ def gen_cases(tier):
                 for prev in (None, {"t": [1, 2]}):
                     if route == "ctor" and prev is not None:
                         continue
-                    cases.append({"layer": "grid", "kind": kind, "route": route, "setting": s,
-                                  "prev": prev})
+                    for others in ((0, 2) if kind != "values" else (0,)):
+                        cases.append({"layer": "grid", "kind": kind, "route": route, "setting": s,
+                                      "prev": prev, "others": others})
     depth = 4 if tier == "quick" else 5
     for kind in KINDS:
         for start in (0, 2):
-            cases.append({"layer": "history", "kind": kind, "start": start, "depth": depth})
+            for others in ((0, 1) if kind != "values" else (0,)):
+                cases.append({"layer": "history", "kind": kind, "start": start, "depth": depth, "others": others})
     for kind in KINDS:
         for card in normal_forms(3):
             for fmt in ("XML", "JSON", "YAML"):
@@ -175,10 +191,11 @@ def gen_cases(tier):
 
 
 HIST_OPS = [("set", {"t": [1, 2]}), ("set", {"t": [2, None]}), ("set", {"t": [None, 1]}), ("set", None),
-            ("set", {"t": [2, 2]}), ("add", None), ("remove", None), ("clear", None)]
+            ("set", {"t": [2, 2]}), ("add", None), ("remove", None), ("clear", None), ("add-other", None)]
 
 
 def run_case(case):
+    OTHERS[0] = case.get("others", 0)
     if case["layer"] == "grid":
         return run_grid(case)
     if case["layer"] == "history":
@@ -308,6 +325,13 @@ def run_history(case):
                         add_child(kind, obj, serial[0])
                         if count_of(kind, obj) != cnt + 1:
                             raise AssertionError("child not added")
+                    elif op == "add-other":
+                        if kind == "values":
+                            continue
+                        serial[0] += 1
+                        add_other(kind, obj, serial[0])
+                        if count_of(kind, obj) != cnt:
+                            raise AssertionError("a child of the other kind changed the count")
                     elif op == "remove":
                         if cnt == 0:
                             continue
